@@ -43,10 +43,11 @@ That `depGraph` is the graph of the C19 model and not a private invention is pro
 `Proofs/DagRecPathDump.lean` `teN_rec`: the edge list `dr_pi_dag_enum_edges` emits for a dump of the
 uncontracted recording (`PiDag.teN`, a permutation of `enumEdges`) is `edgesT t 0` with every
 position renamed to the array slot its interval occupies.  On that basis
-* `C18_span_is_longest_path_of_dump`: in `flatten sc' nw (record v {} sc t)` — the `.dag` file
-  content of the uncontracted recording — with vertices = slots of `T`, weights = `t_1` of the
-  leaf slots, edges = the array `E` as `dr_pi_dag_enum_edges` + sort produce it, `t_inf` stored in
-  the root slot `T[0]` is the weight of a longest path; `C18_span_any_options_…` says the root of
+* `C18_span_is_longest_path_of_dump`: in `flatten sc' nw (record v {} sc t)` — the position
+  independent DAG `dr_make_pi_dag` builds from the uncontracted recording, i.e. what `dr_dump`
+  writes — with vertices = slots of `T`, weights = `t_1` of the leaf slots (0 for the section /
+  task slots, which have no edges), edges = the array `E` as `dr_pi_dag_enum_edges` + sort produce
+  it, `t_inf` stored in the root slot `T[0]` is the weight of a longest path; `C18_span_any_options_…` says the root of
   the recording under ANY option setting reports that same number.
 What is NOT proved: a longest-path reading of a CONTRACTED dump (collapsed sections / tasks as
 single vertices weighing their `t_inf`); the edge KINDS of the dump are compared with those of
